@@ -48,6 +48,9 @@ class Prop(BaseProp):
         inp_cfg = {"include_undocumented_function": rng.random() < 0.7, "include_undocumented_macro": rng.random() < 0.7,
                    "include_undocumented_option": rng.random() < 0.7}
         prefix = rng.choice([None, "Pfx"])
+        auto = rng.random() < 0.7
+        if not auto:
+            inp_cfg["auto_exclude_directories_without_cmake"] = False
         self._sig0 = [single, outmode, home_has_cfg, recursive, prefix, sorted(inp_cfg.items())]
         res.sig = sig_hash(self._sig0)
         res.see("output_modes", outmode)
@@ -73,7 +76,18 @@ class Prop(BaseProp):
                         nm = rng.choice(["", " named.mod_" + "".join(c if c.isalnum() else "_" for c in f_)])
                         tree.files[f_] = f"#[[[ @module{nm}\n# About this module.\n#]]\n" + tree.files[f_]
                 res.count("trees_with_module_doccomments")
-            linked = rng.random() < 0.3
+            if not single and rng.random() < 0.15 and len(tree.dirs) > 1:
+                # the input directory itself holds no CMake file (only its sub-directories do)
+                for f_ in tree.files_of(""):
+                    if f_.lower().endswith(".cmake"):
+                        del tree.files[f_]
+                res.count("trees_without_cmake_file_at_the_top")
+            if rng.random() < 0.1:
+                # a file whose whole name is the extension
+                d_ = rng.choice(sorted(tree.dirs))
+                tree.files[os.path.join(d_, ".cmake")] = cmake_text(os.path.join(d_, "dotcmake"), rich=True)
+                res.count("trees_with_a_file_named_dot_cmake")
+            linked = rng.random() < 0.3 and any(f_.endswith(".cmake") for f_ in tree.files_of(""))
             if linked:
                 tree.files["linked_in.cmake"] = cmake_text("linked_in.cmake", rich=True)
             tree.write(inp)
@@ -175,7 +189,11 @@ class Prop(BaseProp):
                 pages = [os.path.join(out_abs, stem_of(os.path.basename(target)) + ".rst")]
                 blocks = [[pages[0]]]
             else:
-                ref = reference_walk(tree, inp, recursive, True, gitmatch.Spec([]))
+                ref = reference_walk(tree, inp, recursive, auto, gitmatch.Spec([]))
+                if auto and not any(f_.endswith(".cmake") for f_ in tree.files_of("")):
+                    # the input directory itself is skipped: without -r nothing at all is documented
+                    if not recursive:
+                        ref.pages = []
                 bydir = {}
                 for p in ref.pages:
                     bydir.setdefault(os.path.dirname(p), []).append(p)
@@ -229,6 +247,14 @@ class Prop(BaseProp):
                         cls = "stdout-contains-index-page"
                     res.violate(cls, f"unparsed stdout {rest[:200]!r}; {len(remaining)} directory blocks unmatched",
                                 dict(wit, stdout=fr0.outcome.stdout[:3000]))
+            # the other direction: every page that the -o run left behind (index pages and foreign files apart) is one of the
+            # pages standard output carries
+            known = {os.path.normpath(p_) for b_ in blocks for p_ in b_}
+            for rel_, meta_ in fr.after.items():
+                ap_ = os.path.normpath(os.path.join(sb, rel_))
+                if ap_.startswith(os.path.normpath(out_abs) + os.sep) and ap_.endswith(".rst") and os.path.basename(ap_) != "index.rst" \
+                        and rel_ not in fr.before and ap_ not in known:
+                    res.violate("page-written-with-o-but-not-printed-without", os.path.relpath(ap_, out_abs), wit2)
             if idx % 40 == 0:
                 res.sample = {"argv": wit2["argv"], "outmode": outmode, "audit_events": [(e, os.path.relpath(p, sb)) for e, p, _ in fr.audit][:12]}
         return res
